@@ -187,7 +187,10 @@ def _verify_case(c, fnode, case, label, res, lemma_body=None):
             env["result"] = val
             sc = spec.Scope(env, s.heap, s.heap.old(), s.old_env, s.alloc, s.alloc0, s.ghost)
             for lab, text in c.ensures.items():
-                ex.oblige(s, f"post.{lab}@{ln}", spec.sv_bool(text, sc))
+                g = spec.sv_bool(text, sc)
+                ex.oblige(s, f"post.{lab}@{ln}", g)
+                if lab in getattr(c, "chain", ()):
+                    s.assume(g)
             ex.oblige(s, f"frame@{ln}", frame_goal({}, s.heap, s.alloc0, mod_targets))
             if raise_conds:
                 ex.oblige(s, f"raises.none_missed@{ln}", z3.Not(z3.Or(*raise_conds.values())))
